@@ -12,7 +12,7 @@ META = dict(
                'uninterpreted function of s), CBMC. Assumed, unchecked: entry + MPI rank does not overflow int (signed overflow for entry INT_MAX on rank >= 1). '
                'Seeding in the World constructor from its argument is not under contract.',
     scope='ContinentalPlateModels::Composition::Random::get_composition (the only random composition model in the code base); World::parse_entries (seed entry)',
-    not_covered=['random uniform grain distributions: orthonormality and determinant of the rotation matrices, normalised sizes summing to one (floating-point products/quotients)',
+    not_covered=['fixed / normalised grain sizes of the uniform grains model are under contract in C05 (units *_G_uniform: sizes as given, or 1/number of grains each)', 'random uniform grain distributions: orthonormality and determinant of the rotation matrices, normalised sizes summing to one (floating-point products/quotients)',
                  'engine seeding from the constructor argument', '"different seeds give different draws" (a statement about mt19937)'],
     enforced_elsewhere={},
 )
